@@ -10,7 +10,10 @@ CHECKS = {
  "C01": {"ref": "5/C01", "technique": "Lean 4 refinement proof (model -> MvPolynomial) + differential correspondence",
          "text": "Theorems add_den/mul_den/… prove, for every number of terms, names, array size and retain flags, that the "
                  "model's +,-,*,** denote the MvPolynomial operations (incl. the cmultiply buffer-loop invariant); the "
-                 "compiled model is run against the real operators on generated expression trees.",
+                 "compiled model is run against the real operators on generated expression trees. Arr.*_spec / expr_den lift this "
+                 "to arrays with broadcasting and to every expression tree; broadcast_shape_is_numpy and binop_total show the "
+                 "model's broadcasting is numpy's and never leaves its domain (no zero-length axis); array_pow_elementwise / "
+                 "array_pow_succeeds: ** with an array of exponents raises each broadcast element to its own exponent.",
          "note": BASE_NOTE},
  "C14": {"ref": "5/C14", "technique": "Lean 4 proof by induction over option programs + exhaustive bounded history correspondence",
          "text": "with_restores is proved for every body (any nesting depth, set_options, exceptions, mutation of returned "
@@ -41,20 +44,28 @@ CHECKS = {
          "note": BASE_NOTE + " The identification of the position in glexsort order with a LinearOrder on monomials is by the sortedness theorem of C18; coefficients are compared as rationals."},
  "C19": {"ref": "5/C19", "technique": "Lean 4 proof (leadWalk_spec via walk_last; isconstant/tonumpy/set_dimensions specs) + model correspondence",
          "text": "leadWalk_spec: the ascending overwrite walk returns the largest non-zero term or zeros; the executable "
-                 "walk is that walk (leadWalk_eq_walk); isconstant_spec, tonumpy_error_iff, setDimsDrop_zero. lead_*, "
+                 "walk is that walk (leadWalk_eq_walk); leadArr_is_largest (per array element, all four orders); proxy_perm / "
+                 "proxy_monotone / proxy_stable (sortable_proxy is a permutation, monotone in (lead exponent, lead coefficient), "
+                 "ties keep flat order); isconstant_spec, tonumpy_error_iff, tonumpy_is_the_constant, setDimsDrop_zero, "
+                 "decompose_slice_is_term / decompose_sums_to_p, set_dimensions_more (denotation unchanged) / "
+                 "set_dimensions_fewer (= substituting 0 for the dropped indeterminates). lead_*, "
                  "sortable_proxy (permutation + monotone in (lead exponent, lead coefficient)), argmax/argmin/amax/amin "
                  "without axis, isconstant, tonumpy, todict, decompose, set_dimensions(1..5) are run against the model.",
          "note": BASE_NOTE},
  "C02": {"ref": "5/C02", "technique": "Lean 4 refinement proof (evaluation loop = MvPolynomial.eval; argument binding logic) + model correspondence over all numeric carrier types",
          "text": "call_eval proves the evaluation loop equals MvPolynomial.eval for every polynomial; call_staged (Mathlib's "
-                 "bind1/eval) gives staged = at-once; call_unknown_keyword/call_double/call_binds cover the TypeError logic. "
+                 "bind1/eval) gives staged = at-once; call_unknown_keyword/call_double/call_binds cover the TypeError logic; "
+                 "call_array_is_bind1: every position (i, j) of the executable array-level call is Mathlib's bind1 of the "
+                 "parameters' elements at j into element i. "
                  "The array-level model (broadcast argument shapes, outer product, collapse to a plain array iff constant, "
                  "substitution) is run against the implementation, each numeric argument re-sent as every exact Python/numpy "
                  "carrier type.",
          "note": BASE_NOTE + " Carrier-type independence is established by the correspondence only (the model has one number type)."},
  "C03": {"ref": "5/C03", "technique": "Lean 4 proof of the constructor/cleaning spec + representation-level correspondence + invariant checked on every catalogue result",
          "text": "clean_den, dropZeroCols_rows/_all_zero, dropUnusedNames_names, fromAttributes_rejects_* and regenerate_attrs "
-                 "characterise what polynomial_from_attributes keeps, rejects and denotes for all inputs; attribute triples "
+                 "characterise what polynomial_from_attributes keeps, rejects and denotes for all inputs; fromAttributes_iff is "
+                 "the exact success condition and result, fromAttributes_wellformed / _denotes: whatever it returns is "
+                 "well-formed and denotes the terms passed in; regenerate_wellformed: no side condition. Attribute triples "
                  "(redundant, unsorted, malformed) x all retain flags are compared with the Lean constructor at "
                  "representation level, and every polynomial returned by the ~95-entry operation catalogue is checked for the "
                  "invariant and rebuilt from attributes / raw view / todict.",
@@ -68,7 +79,9 @@ CHECKS = {
  "C06": {"ref": "5/C06", "technique": "Lean 4 refinement proof (derivative rows = MvPolynomial.pderiv, incl. uint32 wrap) + model correspondence over option settings",
          "text": "derivative_rows_den: the rows built by derivative (uint32 decrement that wraps for terms free of the "
                  "variable, coefficient times old exponent) denote pderiv for every polynomial; wrapped rows carry 0; "
-                 "linearity / product rule / commuting partials follow from Mathlib. derivative (name, position, "
+                 "linearity / product rule / commuting partials follow from Mathlib; gradient_is_partials / "
+                 "hessian_is_second_partials / hessian_symmetric: the executable gradient and Hessian of polynomial arrays are "
+                 "well-formed, have D resp. D x D blocks and hold the first / second partials element by element. derivative (name, position, "
                  "indeterminate, successive), gradient and hessian are run against the Lean model and exact dictionary "
                  "arithmetic under 4 (quick) / all 16 (thorough) retain/sort settings.",
          "note": BASE_NOTE},
@@ -84,7 +97,8 @@ CHECKS = {
  "C09": {"ref": "5/C09", "technique": "Lean 4 proof for every index map (gather = ring homomorphism on columns) + correspondence with index maps obtained from numpy itself",
          "text": "gather_den: applying any index map to every coefficient column moves whole elements (element i of the "
                  "result is element sigma(i) of the operand), names untouched, cleaning harmless (gather_clean_den); fill "
-                 "positions hold zero (gatherFill_zero/_copy). 31 functions / methods / indexing forms are run on 0-3-d "
+                 "positions hold zero (gatherFill_zero/_copy); gatherOp_moves_elements/gatherOp_wf: the executable gather over any "
+                 "operand list (joins included) yields whole elements of the owning operand or zero. 31 functions / methods / indexing forms are run on 0-3-d "
                  "arrays incl. transposed views; the expected placement comes from running the same numpy function on "
                  "index arrays and gathering in the Lean model; joins use operands with different names and terms.",
          "note": BASE_NOTE + " numpy's shape functions are assumed to be value-independent rearrangements (that is what running them on index arrays uses)."},
@@ -92,7 +106,8 @@ CHECKS = {
          "text": "linear_coeff: any additive map applied to all columns acts coefficient-wise on the denotation, and every "
                  "weight matrix gives an additive map (linearCol_add) - covering sum, cumsum, diff, ediff1d, mean for every "
                  "axis/keepdims/n; product_den for prod/inner/outer/matmul; det_spec: the standard-minor Laplace expansion "
-                 "equals Mathlib's Matrix.det for every size (the shipped cyclic-minor recursion does not: det_old_wrong). "
+                 "equals Mathlib's Matrix.det for every size (the shipped cyclic-minor recursion does not: det_old_wrong); "
+                 "det_array_is_det: the executable determinant on (stacks of) polynomial matrices denotes Matrix.det per position. "
                  "Weights come from numpy on unit vectors, product groups from numpy on index arrays.",
          "note": BASE_NOTE + " Known findings D21 (matmul with 1-d operands) and D22 (prod over an axis tuple) are pinned by the package's docstrings/tests and reported as KNOWN-FINDING."},
  "C11": {"ref": "5/C11", "technique": "Lean 4 pattern theorems + decide over the regenerated registries (every registered function classified) + correspondence against numpy on constants",
@@ -103,16 +118,17 @@ CHECKS = {
                  "calls every registered function on constant polynomials next to numpy on the raw arrays over axis / "
                  "keepdims grids, and the numeric division functions with non-constant divisors (FeatureNotSupported).",
          "note": BASE_NOTE + " Pattern-level: theorems cover the patterns, the per-function assignment is tied by the run. Known findings D9b, D21, D22 are pinned by the package's own tests/docstrings."},
- "C05": {"ref": "5/C05", "technique": "Lean 4 proof of the division identity as a step invariant + executable long-division model with fuel + correspondence with an observed loop",
+ "C05": {"ref": "5/C05", "technique": "Lean 4 proof of total correctness of the long division (identity as step invariant + termination by a well-founded monomial order) + correspondence with an observed loop",
          "text": "step_identity / steps_identity: dividend = q*divisor + r is preserved by every reduction step in any number "
                  "of indeterminates, so it holds whenever the loop stops; stops_when_irreducible / step_none_iff: it stops only "
                  "when the divisor element is zero or no term of the remainder is divisible by the leading term; zero_divisor; "
-                 "fuel_mono. Termination itself is `_partial`: the model runs with fuel and the run requires an answer within "
-                 "the fuel for every generated pair, while the implementation's loop is observed through a wrapper of "
+                 "fuel_mono. divmod_terminates / divmod_total: enough fuel always exists - the candidate term strictly decreases in "
+                 "the lexsort monomial order, which is well-founded on rows of one length (lexLt_wf), so quotient and remainder "
+                 "exist for every dividend/divisor element. The implementation's loop is observed through a wrapper of "
                  "get_division_candidate (repeated state / 400 iterations = non-termination). q and r are compared element by "
                  "element with the Lean division; identity, exact multiples, constant divisors, degrees and the operator "
                  "spellings are checked with exact dictionary arithmetic.",
-         "note": BASE_NOTE + " Termination is not proved (argument in DESIGN.md 5/C05); floating point only on dyadic coefficients where every quotient step is exact."},
+         "note": BASE_NOTE + " Termination is proved for the model's step; that the implementation's loop is that step is tied by the run (loop observer). Floating point only on dyadic coefficients where every quotient step is exact."},
  "C13": {"ref": "5/C13", "technique": "Lean 4 proof of the header codec (split/join, decimal digits) and of the logical reduce round trip + correspondence on real pickles/files",
          "text": "header_roundtrip: names, storage keys and shape written into the text header parse back exactly, for "
                  "every number of names/terms and every shape incl. 0-d, whenever no name/key contains the separators "
